@@ -4,15 +4,69 @@ import json, os
 V = os.path.dirname(os.path.dirname(os.path.abspath(__file__)))
 props = [json.loads(l)["id"] for l in open(os.path.join(V, "properties.jsonl"))]
 
+T = "contract-based deductive verification: VCs generated from the real Python AST by a symbolic interpreter with contracts, loop invariants and ghost state (pyvc), discharged by z3 5.1 / cvc5 1.0.3"
+B = "; bounded run-time-contract stand-in on the real code, labelled bounded"
 CHECKS = {
- "C01": dict(cat="proof", tech="contract-based deductive verification: VCs generated from the real AST (pyvc), z3/cvc5; bounded stand-in for the pipeline",
-   text="Proof obligations on the leaf mechanisms of parse totality read from /repo/src at run time (resolve_entity exception-freedom for every entity string). Whole-pipeline totality is not a discharged contract; see level_note.",
-   note="Assumes library contracts of int/chr/str slicing and html.entities.name2codepoint range; not covered: passes outside the verified set, C++ scanner.", ref="3/C01"),
- "C15": dict(cat="proof", tech="contract-based deductive verification with a ghost file system (pyvc VCs over strings, cvc5/z3); bounded sandbox stand-in",
+ "C01": dict(cat="proof", tech=T + B, ref="3/C01",
+   text="Proved on the real code: resolve_entity never raises and returns the entity or one character (all entity strings); State.get_next adds at most 1/2/2/6/6 successors linked to the predecessor (the fan-out bound behind the 32-state pruning). Whole-pipeline totality is NOT proved: parse_string is exercised by the bounded stand-in only.",
+   note="Trusted: library contracts of int/chr/str slicing, name2codepoint range. Not covered by proof: the 20 refinement passes, tagext/imgmap handlers, the C++ scanner, time bounds."),
+ "C02": dict(cat="proof", tech=T + B, ref="3/C02",
+   text="Proved: link classification (compat._handle_link_node) as a decision table over namespace/colon/langlink/interwiki; table/row child filtering. Section nesting, list grouping, tables and apostrophes are covered by the bounded grammar round trip (every word once, in order, under the denoted ancestors), not by discharged contracts.",
+   note="Proof part is small (2 functions); the property as a whole rests on the bounded stand-in."),
+ "C03": dict(cat="proof", tech=T + "; static call-site/arity obligations from the real classes" + B, ref="3/C03",
+   text="Proved: flatten restores the recursion counter on every exit, raises TemplateRecursion before running any callee when over the limit, swallows it only at the outermost call and then yields nothing; static: every callee MagicResolver.__call__ can dispatch to accepts the one positional argument. Per-function size/CPU contracts are bounded only (every registered name x 0..2/3 args x 11 shapes).",
+   note="Trusted: Node.flatten callees satisfy the callee contract; compiled evaluate.pyx behaves as its source. Known gaps reported by seed authors: #time roman numerals, 'round' with huge negative digits (not detected by this check)."),
+ "C04": dict(cat="proof", tech=T + "; static constant-table obligations" + B, ref="3/C04",
+   text="Proved: maybe_numeric_compare equals 'same text or same number' for all strings (int/float as partial functions); static: precedence chain, unary set, left-associative pop condition of #expr. Parameter binding, #if/#ifeq/#switch and the shunting-yard loop are bounded only.",
+   note="nodes.pyx / evaluate.pyx node classes are not under contract."),
+ "C05": dict(cat="proof", tech="static frame obligation over the real AST (complete scan)" + B, ref="3/C05",
+   text="Decided statically (complete over the files): nodes are attached only inside the tree primitives of AdvancedNode and extend_classes; everything else only orphans nodes. Well-formedness after build_advanced_tree and after every single pass, and the container typing, are observed by the bounded stand-in. The behavioural contracts of the primitives (P1) are NOT built.",
+   note="The proof part is the frame obligation only."),
+ "C06": dict(cat="proof", tech="static API-resolution obligations against the real node class table" + B, ref="3/C06",
+   text="Every attribute used on a value the code itself treats as a tree node resolves on the real node classes (or is assigned somewhere on nodes): the defect class 'method renamed away'. Three call sites fail and are recorded as known findings. Each pass is driven directly on enumerated inputs by the bounded stand-in; fixed-point progress is not proved.",
+   note="Receiver typing is a conservative dataflow (untyped receivers generate no obligation)."),
+ "C07": dict(cat="exploration", tech="bounded run-time contract only (no contract within the verifier's reach expresses the property)", ref="3/C07",
+   text="BOUNDED stand-in, not a proof: clean_all keeps words, order, section / list-item nesting / reference and tables on generated ordinary documents.",
+   note="Nothing is proved."),
+ "C09": dict(cat="proof", tech=T + B, ref="3/C09",
+   text="Proved: get_uniq builds the marker of the recognisers' shape and registers the replacement, marker format injective in (name, counter); _repl_to_uniq keeps the body verbatim (nowiki restores to its body, others to the complete match); _repl_from_uniq restores known markers and leaves unknown ones; ParseUniq.create_nowiki/pre/math/source/timeline carry the body verbatim (entity decoding only) and never call parse_txt/parseAndExpand.",
+   note="The regular expressions replace_tags / SPLIT_PATTERN are outside SMT: bounded only."),
+ "C10": dict(cat="exploration", tech="bounded run-time contract only (generated C++ scanner, no C/C++ verifier installed)", ref="3/C10",
+   text="BOUNDED stand-in, not a proof: tiling contract on utoken.scan exhaustively over all sequences of <= 3 (quick) / 4 (thorough) lexemes plus random longer strings.",
+   note="Nothing is proved."),
+ "C11": dict(cat="proof", tech=T + "; static data-flow obligation", ref="3/C11",
+   text="Proved (unbounded, with loop invariants): split_blocks concatenates back to the list with blocks of 1..limit entries and terminates for limit >= 1; get_block removes exactly the returned block; enqueue_missing makes scheduled the union and enqueues each new item exactly once. Static + run-time contract: _lookup_contributors stores the authors of the titles it requested. Closure and termination of the greenlet fan-out are NOT covered.",
+   note="Requires api_request_limit >= 1. No stand-in for the orchestration (would be a simulation: another family)."),
+ "C12": dict(cat="proof", tech="configuration and Unicode lemmas decided exactly on every run" + B, ref="3/C12",
+   text="Decided exactly: the namespace tables of all 12 bundled sites are consistent (keys = ids, names canonical, lookups unambiguous) and first-letter capitalisation is idempotent for every code point - the premises of idempotence. The contract of splitname itself (canonical form, namespace number, idempotence, spelling invariance) is checked exhaustively on enumerated titles only: the SMT proof over strings was not built.",
+   note="Domain precondition: titles that start with ':' after the optional leading colon, or are empty, are not page titles."),
+ "C13": dict(cat="proof", tech=T + "; static obligations on the serialisation call sites" + B, ref="3/C13",
+   text="Proved: MetabookObject._json returns type + exactly the public non-None attributes; static: sort_keys dump, checksum = sha256(dumps), object_hook table covers every metabook class, per-instance deep copy of defaults, reads-frame of make_collection_id. Round trip / fixed point / id invariance on generated metabooks are bounded.",
+   note="json and sha256 are trusted library contracts; MetabookObject.__init__ (reflection) is not under contract."),
+ "C14": dict(cat="proof", tech=T + " (lemmas over the record format and the file-name code), static ties to the code" + B, ref="3/C14",
+   text="Proved as lemmas: a record contains no spurious separator and splits back into header and text; the per-character code of fs_escape is prefix-free and the induction step of injectivity holds; static: both sides use the same separator literal and fs_escape. The composition write -> zip -> read (newest revision per title, spellings) is bounded.",
+   note="Known finding kept out of the lemma: texts starting with form feed + ' --page-- '."),
+ "C15": dict(cat="proof", tech=T + " with a ghost file system" + B, ref="3/C15",
    text="extract_member/extractall verified for all member names and destinations: every FS effect lies under the destination, rejected members leave no effect; extractall is checked against extract_member's contract through a loop invariant.",
-   note="Trusted: POSIX os.path join/normpath/abspath/dirname contracts (re-validated against posixpath on the bounded domain every run), no symlinks in a fresh destination.", ref="3/C15"),
+   note="Trusted: POSIX os.path join/normpath/abspath/dirname contracts (re-validated against posixpath on the bounded domain every run); no symlinks in a fresh destination."),
+ "C16": dict(cat="proof", tech=T + ": inductive invariant over the atomic (between-yield) segments of the real gevent code" + B, ref="3/C16",
+   text="Every atomic segment of qs/jobs.py / qs/qserve.py (push, pushjob, rpc_qpull before/after the yield and on GreenletExit, rpc_qfinish, rpc_qkill, shutdown, handletimeouts, dropdead), started in any state satisfying the invariant 'every known unfinished job is in exactly one place', ends in such a state; pushjob is verified against an exact transition contract that its callers use. Holds for every schedule because control changes hands only at the yield.",
+   note="Trusted: cooperative scheduling, heapq/min/random.choice/gevent contracts on abstract views. One clause (I4a after segment B) is not proved and listed in the evidence."),
+ "C17": dict(cat="proof", tech=T + B, ref="3/C17",
+   text="Proved: job order = (priority, serial) lexicographic and strict total; _mark_finished / finishjob finality and exactly-one-counter; pop returns an unfinished job of a requested channel that is minimal among candidates; add under an existing id changes nothing; shutdown re-queues only unfinished jobs. The job a *resumed* puller receives can be finished: known finding.",
+   note="As C16; _preenall's iteration is assumed (its body _preenjobq is verified)."),
+ "C18": dict(cat="proof", tech=T + B, ref="3/C18",
+   text="job and workq __getstate__/__setstate__ verified from every state satisfying the invariant: fields preserved, fresh event set iff done, every unfinished job queued exactly once with its timeout, finished jobs registered, counter restored, invariant re-established.",
+   note="Trusted: pickle rebuilds the graph through these methods."),
+ "C19": dict(cat="proof", tech=T + "; lemmas over the job-id templates" + B, ref="3/C19",
+   text="do_render_status verified as the exact function of the two job snapshots the statement describes, querying only its own job ids; job-id templates injective; download file name proved header-safe (printable ASCII, no whitespace, no delimiter).",
+   note="Trusted: qinfo returns job._json() or None; NFKD/ASCII contract validated for every code point on every run."),
+ "C20": dict(cat="proof", tech=T + " with a ghost file system, I/O-error injection at every call; static protocol obligations for render()" + B, ref="3/C20",
+   text="Status.dump, ZipCreator.create_zip and make_zip verified on every path incl. injected I/O errors: the published path is never opened for writing, only ever replaced by rename of a closed temp file from the same directory, temp unlinked on error. render(): static protocol obligations. download_with_retries: not covered.",
+   note="Trusted: rename atomicity, writers write only their output path, mkstemp names differ from the published path."),
 }
 NA = {
+ "C08": "not applicable: the statement is about text extracted from a PDF laid out by reportlab (floats, fonts, binary output, external tools) and odflint on an odfpy package; no function between the archive and the PDF has a contract an SMT-backed generator for a Python subset can state or decide, and a bounded stand-in would be an end-to-end rendering test (a different family)",
 }
 checks = []
 for p in props:
@@ -22,7 +76,7 @@ for p in props:
                        "evidence_file": f"evidence/{p}.json", "replay_cmd_template": f"./check {p} --replay {{path}}",
                        "engine": "pyvc", "level_claimed": {"category": c["cat"], "text": c["text"], "design_ref": c["ref"]},
                        "level_note": c["note"], "technique": c["tech"]})
-na = [{"property_id": p, "reason": NA.get(p, "check not built yet (work in progress; see DESIGN.md section 3)")} for p in props if p not in CHECKS]
+na = [{"property_id": p, "reason": NA.get(p, "check not built (see DESIGN.md)")} for p in props if p not in CHECKS]
 m = {"version": 1, "setup_cmd": "./setup.sh",
      "hooks": {"guard": "MWLIB_VERIF", "enable": "no hooks: contracts live in sidecars under /verif/contracts; checks read /repo/src at run time",
                "baseline_off_cmd": "cd /repo && /venv/bin/python -m pytest -ra -q -p no:cacheprovider --timeout=900 --continue-on-collection-errors",
